@@ -218,7 +218,7 @@ def _c07_like(prop, tier, seed, case, keep):
         r['violation_counts'] = {k: n for k, n in r['violation_counts'].items() if keep(k)}
         v.add_run(r)
     if tier == 'thorough' and not case:
-        r = run_miri(prop, 'c07worker', tier, seed, opts={'sample': 4000}, shards=16)
+        r = run_miri(prop, 'c07worker', tier, seed, opts={'sample': 300}, shards=16)
         r['violations'] = [x for x in r['violations'] if keep(x['sig'])]
         r['violation_counts'] = {k: n for k, n in r['violation_counts'].items() if keep(k)}
         v.add_run(r)
